@@ -4,7 +4,7 @@
 // Linter.DetermineEnabledRules on generated configurations, and prints what the implementation did,
 // one JSON object per line.
 //
-//	c04 <out.jsonl> <quick|thorough> [replay-case.json]
+//	c04 <out.jsonl> <quick|thorough|replay> [cases.json]
 package main
 
 import (
@@ -615,7 +615,7 @@ type job struct {
 
 func main() {
 	if len(os.Args) < 3 {
-		fmt.Fprintln(os.Stderr, "usage: c04 <out.jsonl> <quick|thorough> [replay-case.json]")
+		fmt.Fprintln(os.Stderr, "usage: c04 <out.jsonl> <quick|thorough|replay> [cases.json]")
 		os.Exit(2)
 	}
 	out := hutil.NewOut(os.Args[1])
@@ -629,13 +629,17 @@ func main() {
 		jobs = append(jobs, job{id: len(jobs), stream: stream, code: code, in: in})
 	}
 
+	// a file with a JSON list of cases: the corpus (run first) or, with tier "replay", only these
 	if len(os.Args) > 3 {
 		bs, err := os.ReadFile(os.Args[3])
 		must(err)
-		var in CaseIn
-		must(json.Unmarshal(bs, &in))
-		add("replay", nil, in)
-	} else {
+		var ins []CaseIn
+		must(json.Unmarshal(bs, &ins))
+		for _, in := range ins {
+			add("corpus", nil, in)
+		}
+	}
+	if tier != "replay" {
 		// what the real bundle contains (ties Gen/RulesTable.v to what OPA loads)
 		rs, err := e.pqBundled.Eval(e.ctx)
 		must(err)
@@ -730,9 +734,7 @@ func main() {
 		if j.code != nil {
 			rec["code"] = j.code
 		}
-		if j.stream != "fn" {
-			rec["in"] = j.in
-		}
+		rec["in"] = j.in
 		out.Emit(rec)
 	}
 }
